@@ -13,7 +13,9 @@ OPAQUE_KINDS = ["hex6", "HEX6", "hex6n", "hex3", "hex3n", "rgb", "rgb_tight", "R
                 # further tuple forms the library's reader accepts (color_parser: 3-component branch): fractions of full
                 # scale as floats, 0-255 floats, numeric strings, percentage strings, (hue, s, l) with float s and l; and
                 # the informal comma list
-                "frac_tuple", "float_tuple", "str_tuple", "pct_tuple", "hsl_tuple", "informal3"]
+                "frac_tuple", "float_tuple", "str_tuple", "pct_tuple", "hsl_tuple", "informal3",
+                # surrounding blanks ("optional whitespace"): trailing as well as leading
+                "keyword_pad", "hex6n_pad", "hex6_pad", "rgb_pad", "hsl_pad"]
 
 import collections
 
@@ -37,6 +39,7 @@ OUT_KIND = {"hex6": "hex", "HEX6": "hex", "hex6n": "hex", "hex3": "hex", "hex3n"
             "hsl": "hsl", "HSL": "hsl", "keyword": "hex", "tuple": "tuple", "list": "tuple",
             "ntuple": "tuple", "tuplesub": "tuple", "listsub": "tuple",
             "rgba": "hex", "hsla": "hex", "rgba_tuple": "hex", "rgba_list": "hex",
+            "keyword_pad": "hex", "hex6n_pad": "hex", "hex6_pad": "hex", "rgb_pad": "rgb", "hsl_pad": "hsl",
             "frac_tuple": "tuple", "float_tuple": "tuple", "str_tuple": "tuple", "pct_tuple": "tuple", "hsl_tuple": "tuple",
             # not covered by the documented format mapping (C06 does not judge these)
             "informal3": None, "rgb4": None, "rgbslash": None, "rgbslashpct": None, "informal4": None}
@@ -142,6 +145,13 @@ def spell(rgb, kind):
         return TupleSub((r, g, b))
     if kind == "listsub":
         return ListSub([r, g, b])
+    if kind.endswith("_pad"):
+        inner = spell(rgb, {"keyword_pad": "keyword", "hex6n_pad": "hex6n", "hex6_pad": "hex6", "rgb_pad": "rgb", "hsl_pad": "hsl"}[kind])
+        if inner is None:
+            return None
+        if kind == "keyword_pad" and (r + g) % 2:
+            inner = inner.upper()
+        return ["", " ", "  "][(r + b) % 3] + inner + [" ", "  ", " "][(g + b) % 3]
     if kind == "frac_tuple":
         return tuple(v / 255 for v in rgb)
     if kind == "float_tuple":
